@@ -49,6 +49,7 @@ import json
 import os
 import re
 import subprocess
+import sys
 import tempfile
 from contextlib import contextmanager
 from pathlib import Path
@@ -57,6 +58,7 @@ from typing import (
     Any,
     Callable,
     Dict,
+    Iterable,
     Iterator,
     List,
     Literal,
@@ -706,15 +708,27 @@ def to_onnx(
                 os.remove(data_path)
         except OSError:
             pass
-        onnx.save_model(
-            model_proto,
-            dest,
-            save_as_external_data=True,
-            all_tensors_to_one_file=True,
-            location=data_location,
-            size_threshold=external_threshold,
-            convert_attribute=False,
-        )
+        # Mark the large initializers for the sidecar ourselves instead of passing
+        # ``location=`` to onnx.save_model: that call resolves ``location`` against the
+        # *current* directory and refuses to export whenever an unrelated file of the
+        # same name happens to live there.
+        def _initializers(graph: onnx.GraphProto) -> Iterable[onnx.TensorProto]:
+            yield from graph.initializer
+            for node in graph.node:
+                for attr in node.attribute:
+                    if attr.type == onnx.AttributeProto.GRAPH:
+                        yield from _initializers(attr.g)
+                    elif attr.type == onnx.AttributeProto.GRAPHS:
+                        for sub in attr.graphs:
+                            yield from _initializers(sub)
+
+        for tensor in _initializers(model_proto.graph):
+            if (
+                tensor.HasField("raw_data")
+                and sys.getsizeof(tensor.raw_data) >= external_threshold
+            ):
+                onnx.external_data_helper.set_external_data(tensor, data_location)
+        onnx.save_model(model_proto, dest)
         # Only keep the .data sidecar if the export actually referenced external data.
         if not any(init.external_data for init in model_proto.graph.initializer):
             # No external payloads; remove an empty sidecar if one was produced.
